@@ -6,6 +6,7 @@ import (
 	"flag"
 	"fmt"
 	"os"
+	"runtime"
 	"sort"
 )
 
@@ -69,7 +70,7 @@ func cmdSlashing(prop string, args []string) int {
 	run := &Runner{ctx: ctx, fx: fx, stats: map[string]int{}}
 	nHist, nOps, sweepN := 40, 40, 600
 	if cf.tier == "thorough" {
-		nHist, nOps, sweepN = 400, 60, 1 << 30
+		nHist, nOps, sweepN = 400, 60, 1<<30
 	}
 	propShare := 10
 	if prop == "C02" {
@@ -87,6 +88,12 @@ func cmdSlashing(prop string, args []string) int {
 		}
 		g := newGenState(fx, rng.Fork())
 		hm := newSlashingMonitor()
+		// every third history runs with one or two processors: a batch of four entries is then spread over
+		// workers that each handle several entries
+		oldProcs := 0
+		if h%3 == 1 {
+			oldProcs = runtime.GOMAXPROCS(1 + (h/3)%2)
+		}
 		for i := 0; i < nOps; i++ {
 			op := g.genSlashingOp(propShare)
 			rec, err := run.execStep(inst, h, i, op)
@@ -100,6 +107,9 @@ func cmdSlashing(prop string, args []string) int {
 			if h == 0 && i < 6 {
 				samples = append(samples, describeStep(rec))
 			}
+		}
+		if oldProcs != 0 {
+			runtime.GOMAXPROCS(oldProcs)
 		}
 		for k, v := range g.stats {
 			run.stats["gen."+k] += v
